@@ -830,3 +830,515 @@ def install(lib):
         lib.loop_spec("LRUTrie.%s::for#0" % nm, LoopSpec(reader_for_inv, havoc=havoc_reader, locals_=("lru",) if nm == "follow_lru" else ()))
         lib.loop_spec("LRUTrie.%s::while#0" % nm, LoopSpec(reader_while_inv, havoc=havoc_reader_node))
     return cs + [Reader("lru_node"), Reader("follow_lru")]
+
+
+# ============================================================================ dfs_with_webentity_iter (C07)
+# NEAR(a): the webentity of the nearest ancestor-or-self of head a that carries one, 0 if
+# none.  Spec function of the *current* store, defined by well-founded recursion on the
+# parent pointer (parent[a] < a, I2): the unfolding equation below is its definition
+# (assumption A12 in vcheck.py; consistent because the recursion is well-founded).
+NEAR = z3.Function("NEAR", INT, INT)
+
+
+def near_axiom(p):
+    w = TW(p)
+    a = z3.Int("a")
+    pa = w.f("parent", a)
+    return z3.ForAll([a], z3.Implies(w.head(a), NEAR(a) == z3.If(w.f("we", a) != 0, w.f("we", a), z3.If(pa == 0, 0, NEAR(pa)))))
+
+
+def enc_we(v):
+    if v is None:
+        return z3.IntVal(0)
+    if isinstance(v, Opt):
+        return z3.If(v.none, 0, to_z3(v.val)) if not isinstance(v.none, bool) else (z3.IntVal(0) if v.none else to_z3(v.val))
+    return to_z3(v)
+
+
+def inherited(w, b):
+    pa = w.f("parent", b)
+    return z3.If(pa == 0, 0, NEAR(pa))
+
+
+def wl_phi(ex, p, e):
+    """work-list entry (block, webentity): block is a head and the carried webentity is
+    the one inherited from above (None encoded as 0)"""
+    w = TW(p)
+    b, we = e
+    cs = []
+    if isinstance(b, Opt):
+        cs.append(("block-is-not-None", znot(b.none) if not isinstance(b.none, bool) else z3.BoolVal(not b.none)))
+        b = b.val
+    bz = to_z3(b)
+    cs.append(("block-is-a-head", w.head(bz)))
+    cs.append(("carried-webentity==inherited-nearest", enc_we(we) == inherited(w, bz)))
+    if isinstance(we, Opt) and not isinstance(we.none, bool):
+        cs.append(("carried-webentity-is-None-or-positive", z3.Or(we.none, to_z3(we.val) >= 1)))
+    return cs
+
+
+def wl_mk():
+    return (fresh("wl_block", INT), Opt(fresh("wl_nowe", BOOL), fresh("wl_we", INT)))
+
+
+def wl_inv(ex, p):
+    st = p.env["stack"]
+    o = p.obj(st)
+    cs = []
+    if o.cls == "list":
+        for k, e in enumerate(o.f["items"]):
+            cs += [("entry%d:%s" % (k, nm), f) for nm, f in wl_phi(ex, p, e)]
+    else:
+        cs.append(("worklist-size-nonnegative", o.f["n"] >= 0))
+    return cs
+
+
+def wl_havoc(ex, p):
+    p.env["stack"] = p.new_obj("bag", {"phi": wl_phi, "mk": wl_mk, "n": fresh("wl_n", INT)})
+    n = p.env["node"]
+    store = p.obj(n).f["storage"]
+    p.env["node"] = Wd.sym_node(p, store, "node")
+
+
+class DfsWithWebentity(Contract):
+    """dfs_with_webentity_iter, soundness: every yielded (node, webentity) is a Fresh
+    head together with NEAR(head) (None for 0); nothing is raised, nothing written.
+    (That every head is yielded exactly once is left to the bounded stand-in.)"""
+
+    qual = "LRUTrie.dfs_with_webentity_iter"
+
+    def setups(self, ex):
+        p, w, store, trie = base()
+        p.assume(near_axiom(p))
+        snapshot_old(p)
+        p.w["__yields"] = z3.IntVal(0)
+        yield p, trie, [], {}, "any"
+
+    def on_yield(self, ex, p, v, ln, tag):
+        w = TW(p)
+        if not (isinstance(v, tuple) and len(v) == 2 and isinstance(v[0], Ref)):
+            ex.oblige(p, "yields-(node,webentity)", False, ln)
+            return []
+        node, we = v
+        b = node_blk(p, node)
+        for nm, f in is_fresh(ex, p, node, "yielded-node"):
+            ex.oblige(p, nm, f, ln)
+        ex.oblige(p, "yielded-node-is-a-head", w.head(b), ln)
+        ex.oblige(p, "yielded-webentity==nearest-webentity-of-the-node", enc_we(we) == NEAR(b), ln)
+        p.w["__yields"] = p.w["__yields"] + 1
+        p.mut += 1
+        return [(p, "normal", None)]
+
+    def check(self, ex, p0, res, tag):
+        for p1, kind, val in res:
+            if kind == "raise":
+                ex.oblige(p1, "raises-nothing(%s)" % val[0], False, val[1])
+                continue
+            for k in TKEYS:
+                if not p1.w[k].eq(p0.w[k]):
+                    ex.oblige(p1, "store-unchanged[%s]" % k, p1.w[k] == p0.w[k], None)
+
+
+_install_prev3 = install
+
+
+def install(lib):
+    cs = _install_prev3(lib)
+    lib.loop_spec("LRUTrie.dfs_with_webentity_iter::while#0", LoopSpec(wl_inv, havoc=wl_havoc))
+    return cs + [DfsWithWebentity()]
+
+
+# ============================================================================ windup_lru_for_webentity (C07 slow variant, C08)
+def parents_loop_inv(ex, p):
+    """loop of node_parents_iter, as seen by the function under verification (the
+    consumer's body runs at each yield)"""
+    w = TW(p)
+    par = p.env["parent"]
+    if p.obj(par).f["block"] is None:
+        # the parent pointer led outside the store: impossible under the invariant
+        return [("parent-node-exists", z3.BoolVal(False))]
+    pb = node_blk(p, par)
+    cs = list(is_fresh(ex, p, par, "parent"))
+    cs.append(("parent-is-a-head", w.head(pb)))
+    cenv = p.w.get("__consumer_env", {})
+    if ex.fn == "LRUTrie.windup_lru_for_webentity" and "node" in cenv:
+        b0 = node_blk(p, cenv["node"])
+        cs.append(("nearest-webentity-of-the-start==nearest-of-the-current-ancestor", NEAR(b0) == NEAR(pb)))
+        cs.append(("no-webentity-found-so-far", w.f("we", pb) == 0))
+    return cs
+
+
+class WindupWebentity(Contract):
+    """windup_lru_for_webentity(node) = NEAR(node): the webentity of the nearest
+    ancestor-or-self carrying one, None when there is none; nothing raised or written"""
+
+    qual = "LRUTrie.windup_lru_for_webentity"
+
+    def setups(self, ex):
+        p, w, store, trie = base()
+        p.assume(near_axiom(p))
+        b0 = fresh("b0", INT)
+        p.assume(w.head(b0))
+        n = fresh_node_at(p, store, b0)
+        p.w["__b0"] = b0
+        snapshot_old(p)
+        yield p, trie, [n], {}, "any"
+
+    def check(self, ex, p0, res, tag):
+        b0 = p0.w["__b0"]
+        for p1, kind, val in res:
+            if kind == "raise":
+                ex.oblige(p1, "raises-nothing(%s)" % val[0], False, val[1])
+                continue
+            ex.oblige(p1, "result==nearest-webentity(None-for-none)", enc_we(val) == NEAR(b0), None)
+            if isinstance(val, Opt) and not isinstance(val.none, bool):
+                ex.oblige(p1, "result-is-None-or-a-webentity-id", z3.Or(val.none, to_z3(val.val) != 0), None)
+            for k in TKEYS:
+                if not p1.w[k].eq(p0.w[k]):
+                    ex.oblige(p1, "store-unchanged[%s]" % k, p1.w[k] == p0.w[k], None)
+
+
+_install_prev4 = install
+
+
+def install(lib):
+    cs = _install_prev4(lib)
+    lib.loop_spec("LRUTrie.node_parents_iter::while#0", LoopSpec(parents_loop_inv, havoc=havoc_node("parent")))
+    return cs + [WindupWebentity()]
+
+
+# ============================================================================ windup_lru (C02: bottom-up reconstruction)
+LRUB = z3.Function("LRUB", LP, BYTES)  # the bytes an abstract path spells
+
+
+def _lrub_axioms(terms):
+    out = [LRUB(ROOTP) == bytes_val(b"")]
+    for t in terms:
+        if z3.is_app(t) and t.decl().name() == "ext":
+            out.append(LRUB(t) == bcat(LRUB(t.arg(0)), t.arg(1)))
+    return out
+
+
+if _lrub_axioms not in smt.TERM_AXIOMS:
+    smt.TERM_AXIOMS.append(_lrub_axioms)
+smt.GLOBAL_SYMBOLS.add("LRUB")
+
+_parents_inv0 = parents_loop_inv
+
+
+def parents_loop_inv(ex, p):  # noqa: F811  (extends the invariant for windup_lru)
+    cs = _parents_inv0(ex, p)
+    cenv = p.w.get("__consumer_env", {})
+    if ex.fn == "LRUTrie.windup_lru" and "node" in cenv and p.obj(p.env["parent"]).f["block"] is not None:
+        w = TW(p)
+        pb = node_blk(p, p.env["parent"])
+        b0 = node_blk(p, cenv["node"])
+        cs.append(("bytes-above-the-current-ancestor++lru==bytes-of-the-start's-path", bcat(LRUB(w.gpath(pb)), to_z3(cenv["lru"])) == LRUB(w.path(b0))))
+    return cs
+
+
+class WindupLru(Contract):
+    """windup_lru(block) returns exactly the bytes of the LRU whose walk ends at that
+    head: the concatenation of the full stems from the top level down (C02: bottom-up
+    reconstruction agrees byte for byte with the stored path)"""
+
+    qual = "LRUTrie.windup_lru"
+
+    def setups(self, ex):
+        p, w, store, trie = base()
+        b0 = fresh("b0", INT)
+        p.assume(w.head(b0))
+        p.w["__b0"] = b0
+        snapshot_old(p)
+        yield p, trie, [b0], {}, "any"
+
+    def check(self, ex, p0, res, tag):
+        b0 = p0.w["__b0"]
+        w = TW(p0)
+        # L-WINDUP (induction schema of DESIGN 3.7): the path of the first i stems of a
+        # query spells the concatenation of those stems; with lru_node's contract
+        # (path(result) = QP(QL)) this gives windup_lru(lru_node(l).block) = l
+        k = fresh("k", INT)
+        q = p0.fork()
+        ex.oblige(q, "lemma:L-WINDUP:base", LRUB(QP(0)) == PRE(0), None)
+        q.assume(k >= 0)
+        q.assume(LRUB(QP(k)) == PRE(k))
+        ex.oblige(q, "lemma:L-WINDUP:step", LRUB(QP(k + 1)) == PRE(k + 1), None)
+        for p1, kind, val in res:
+            if kind == "raise":
+                ex.oblige(p1, "raises-nothing(%s)" % val[0], False, val[1])
+                continue
+            ex.oblige(p1, "result==bytes-of-the-stored-path", to_z3(val) == LRUB(w.path(b0)), None)
+            for k in TKEYS:
+                if not p1.w[k].eq(p0.w[k]):
+                    ex.oblige(p1, "store-unchanged[%s]" % k, p1.w[k] == p0.w[k], None)
+
+
+_install_prev5 = install
+
+
+def install(lib):
+    cs = _install_prev5(lib)
+    lib.loop_spec("LRUTrie.node_parents_iter::while#0", LoopSpec(parents_loop_inv, havoc=havoc_node("parent")))
+    return cs + [WindupLru()]
+
+
+# ============================================================================ linear scans: count_pages / count_crawled_pages (C01, C18)
+CNTPG = z3.Function("CNTPG", INT, INT)  # blocks in [128, a) carrying the page bit
+CNTCR = z3.Function("CNTCR", INT, INT)  # ... carrying the page and the crawled bits
+
+
+def count_axioms(p):
+    w = TW(p)
+    a = z3.Int("a")
+    fl = w.f("flags", a)
+    return [
+        CNTPG(128) == 0,
+        CNTCR(128) == 0,
+        z3.ForAll([a], z3.Implies(z3.And(AL(a), a >= 128), CNTPG(a + 128) == CNTPG(a) + z3.If(bit(fl, PAGE), 1, 0))),
+        z3.ForAll([a], z3.Implies(z3.And(AL(a), a >= 128), CNTCR(a + 128) == CNTCR(a) + z3.If(z3.And(bit(fl, PAGE), bit(fl, CRAWLED)), 1, 0))),
+    ]
+
+
+def scan_loop_inv(ex, p):
+    """loop of nodes_iter as seen by count_pages / count_crawled_pages: the node is a copy
+    of the block at the cursor, or the scan is past the end"""
+    w = TW(p)
+    n = p.env["node"]
+    o = p.obj(n)
+    exists = to_z3(ex.truth(o.f["exists"], p))
+    size = p.w["T.size"]
+    cenv = p.w.get("__consumer_env", {})
+    b = o.f["block"]
+    if b is None:
+        past = z3.BoolVal(True)
+        there = z3.BoolVal(False)
+        bz = z3.IntVal(128)
+    else:
+        bz = b.val if isinstance(b, Opt) else to_z3(b)
+        d = [Wd._coerce(x, srt) for x, srt in zip(node_data(p, n), Wd.SORTS)]
+        none = to_z3(b.none) if isinstance(b, Opt) else z3.BoolVal(False)
+        there = z3.And(exists, z3.Not(none), AL(bz), bz >= 128, bz < size, *[d[k] == w.f(f, bz) for k, f in enumerate(FIELDS)])
+        past = z3.Not(exists)
+    cs = [("cursor-node-is-a-copy-of-its-block(or-the-scan-is-over)", z3.Or(there, past))]
+    if "nb" in cenv:
+        nb = to_z3(cenv["nb"])
+        fn = CNTPG if ex.fn == "LRUTrie.count_pages" else CNTCR
+        cs.append(("count-so-far", z3.If(exists, nb == fn(bz), nb == fn(size))))
+    return cs
+
+
+def scan_havoc(ex, p):
+    n = p.env["node"]
+    store = p.obj(n).f["storage"]
+    p.env["node"] = Wd.sym_node(p, store, "node")
+
+
+class CountScan(Contract):
+    """count_pages / count_crawled_pages: the number of blocks carrying the page bit
+    (resp. page and crawled bits), for ANY store that is a whole number of blocks - no
+    invariant is assumed, so this is also the no-failure obligation of C18 for the
+    scans (tail blocks never carry these bits: LRUTrieNode.write's contract)"""
+
+    def __init__(self, name):
+        self.qual = "LRUTrie." + name
+        self.name = name
+
+    def setups(self, ex):
+        p = Path()
+        w = mk_trie_world(p)
+        p.assume(p.w["T.size"] >= 128)
+        for ax in count_axioms(p):
+            p.assume(ax)
+        for c in Wd.fields_in_range(w):
+            p.assume(c)
+        store = mk_store(p, "T")
+        trie = p.new_obj("LRUTrie", {"storage": store, "encoding": "utf-8", "header": None})
+        snapshot_old(p)
+        yield p, trie, [], {}, "any-store"
+
+    def check(self, ex, p0, res, tag):
+        fn = CNTPG if self.name == "count_pages" else CNTCR
+        for p1, kind, val in res:
+            if kind == "raise":
+                ex.oblige(p1, "raises-nothing-on-any-store(%s)" % val[0], False, val[1])
+                continue
+            ex.oblige(p1, "result==number-of-flagged-blocks", to_z3(val) == fn(p0.w["T.size"]), None)
+            for k in TKEYS:
+                if not p1.w[k].eq(p0.w[k]):
+                    ex.oblige(p1, "store-unchanged[%s]" % k, p1.w[k] == p0.w[k], None)
+
+
+_install_prev6 = install
+
+
+def install(lib):
+    cs = _install_prev6(lib)
+    lib.loop_spec("LRUTrie.nodes_iter::while#0", LoopSpec(scan_loop_inv, havoc=scan_havoc))
+    return cs + [CountScan("count_pages"), CountScan("count_crawled_pages")]
+
+
+# ============================================================================ follow_lru: the walk history (C04)
+# WN(j): the head spelling the first j+1 stems of the query (through the inverse path
+# map); DEEP(i): the deepest level j < i whose head carries a webentity, -1 if none.
+# DEEP is a spec function of the (constant) store, defined by recursion on i.
+DEEP = z3.Function("DEEP", INT, INT)
+
+
+def wn(p, j):
+    return z3.Select(p.w["G.addr"], QP(j + 1))
+
+
+def deep_axioms(p):
+    w = TW(p)
+    j = z3.Int("j")
+    return [
+        DEEP(0) == -1,
+        z3.ForAll([j], z3.Implies(j >= 0, DEEP(j + 1) == z3.If(w.f("we", wn(p, j)) != 0, j, DEEP(j)))),
+        # consequences of the definition (each by induction on j; the step of the second
+        # one is discharged as `lemma:DEEP-names-a-webentity:step` in follow_lru's check)
+        z3.ForAll([j], z3.Implies(j >= 0, z3.And(DEEP(j) >= -1, DEEP(j) < j))),
+        z3.ForAll([j], z3.Implies(z3.And(j >= 0, DEEP(j) >= 0), w.f("we", wn(p, DEEP(j))) != 0)),
+    ]
+
+
+def deep_lemma_step(ex, p):
+    """induction step of `DEEP(j) >= 0 => we[WN(DEEP(j))] != 0` from the defining
+    equation alone"""
+    w = TW(p)
+    q = Path()
+    q.w = dict(p.w)
+    j = fresh("j", INT)
+    q.assume(j >= 0)
+    q.assume(DEEP(j + 1) == z3.If(w.f("we", wn(p, j)) != 0, j, DEEP(j)))
+    q.assume(z3.Implies(DEEP(j) >= 0, w.f("we", wn(p, DEEP(j))) != 0))
+    ex.oblige(q, "lemma:DEEP-names-a-webentity:step", z3.Implies(DEEP(j + 1) >= 0, w.f("we", wn(p, DEEP(j + 1))) != 0), None)
+
+
+def history_is(ex, p, href, i, name="history"):
+    """the walk history records exactly the deepest webentity among the first i levels"""
+    w = TW(p)
+    o = p.obj(href)
+    we = o.f["webentity"]
+    pos = to_z3(o.f["webentity_position"])
+    pre = o.f["webentity_prefix"]
+    d = DEEP(i)
+    cs = [("%s:position" % name, pos == z3.If(d == -1, -1, blen(PRE(d + 1)))), ("%s:webentity" % name, enc_we(we) == z3.If(d == -1, 0, w.f("we", wn(p, d))))]
+    if isinstance(pre, str):
+        cs.append(("%s:prefix-empty-when-none" % name, z3.BoolVal(pre == "") if True else None))
+        cs.append(("%s:no-webentity-yet" % name, d == -1))
+    else:
+        cs.append(("%s:prefix" % name, z3.Implies(d >= 0, to_z3(pre) == PRE(d + 1))))
+        cs.append(("%s:prefix-empty-when-none" % name, z3.Implies(d == -1, blen(to_z3(pre)) == 0)))
+    return cs
+
+
+_reader_for_inv0 = reader_for_inv
+_reader_while_inv0 = reader_while_inv
+
+
+def reader_for_inv(ex, p):  # noqa: F811
+    cs = _reader_for_inv0(ex, p)
+    if "history" in p.env and ex.fn in FOLLOW_USERS and "G.addr" in p.w and getattr(ex, "with_history", False):
+        i = to_z3(p.env[[k for k in p.env if k.startswith("__i")][0]])
+        cs += history_is(ex, p, p.env["history"], i)
+    return cs
+
+
+def reader_while_inv(ex, p):  # noqa: F811
+    cs = _reader_while_inv0(ex, p)
+    if "history" in p.env and ex.fn in FOLLOW_USERS and getattr(ex, "with_history", False):
+        cs += history_is(ex, p, p.env["history"], to_z3(p.env["i"]))
+    return cs
+
+
+FOLLOW_USERS = {"LRUTrie.follow_lru", "Traph.retrieve_webentity", "Traph.retrieve_prefix"}
+
+
+class FollowHistory(Reader):
+    """follow_lru: besides the node (Reader), the returned history names the deepest
+    stem-prefix, among those the walk matched, that carries a webentity - its id, its
+    bytes and their length - and -1/None when none does.  (Longer stem-prefixes than
+    the walk matched are not stored at all: completeness, bounded.)"""
+
+    def __init__(self):
+        Reader.__init__(self, "follow_lru")
+
+    def prepare(self, ex):
+        ex.with_history = True
+
+    def apply(self, ex, p, recv, args, kw, ln):
+        """follow_lru as a callee (retrieve_webentity / retrieve_prefix): the history
+        describes the deepest webentity among the first k matched levels, for some
+        0 <= k <= QL exposed as the ghost `__follow_k`; the store is untouched"""
+        lru = to_z3(args[0])
+        for nm, f in Inv(p):
+            ex.oblige(p, "follow_lru:pre:" + nm, f, ln, "pre")
+        ex.oblige(p, "follow_lru:pre:lru-is-the-query", lru == PRE(QL), ln, "pre")
+        q = p.fork()
+        k = fresh("matched_levels", INT)
+        q.assume(z3.And(k >= 0, k <= QL))
+        q.w["__follow_k"] = k
+        store = q.obj(recv).f["storage"]
+        rb = fresh("followed", INT)
+        nonode = fresh("no_node", BOOL)
+        node = fresh_node_at(q, store, rb, "followed")
+        w = TW(q)
+        q.assume(z3.Implies(z3.Not(nonode), z3.And(k == QL, QL >= 1, w.head(rb), w.path(rb) == QP(QL))))
+        hist = q.new_obj("LRUTrieWalkHistory", {"lru": args[0], "webentity": Opt(fresh("h_noweb", BOOL), fresh("h_we", INT)), "webentity_prefix": fresh("h_prefix", BYTES), "webentity_position": fresh("h_pos", INT), "webentity_creation_rules": q.new_obj("list", {"len": fresh("h_nrules", INT), "elem": lambda i: fresh("h_rule", INT)}), "page_was_created": False})
+        o = q.obj(hist)
+        q.assume(z3.Or(o.f["webentity"].none, o.f["webentity"].val >= 1))
+        for nm, f in history_is(ex, q, hist, k):
+            q.assume(f)
+        q.mut += 1
+        return [(q, (Opt(nonode, node), hist))]
+
+    def setups(self, ex):
+        for s in Reader.setups(self, ex):
+            p = s[0]
+            for ax in deep_axioms(p):
+                p.assume(ax)
+            yield s
+
+    def check(self, ex, p0, res, tag):
+        Reader.check(self, ex, p0, res, tag)
+        deep_lemma_step(ex, p0)
+        k = z3.Int("k")
+        for p1, kind, val in res:
+            if kind == "raise" or not isinstance(val, tuple):
+                continue
+            node, hist = val
+            # the number of levels whose node was matched AND processed
+            lv = p1.env.get("i")
+            idx = [x for x in p1.env if x.startswith("__i")]
+            if node is None:
+                lvl = to_z3(p1.env["i"])
+                # the return taken when the matched node has no child comes after that
+                # node's own webentity was recorded: one more level is covered
+                n_ = p1.env.get("node")
+                if isinstance(n_, Ref) and "stem" in p1.env:
+                    o_ = p1.obj(n_)
+                    d_ = node_data(p1, n_)
+                    try:
+                        eq = bcat(to_z3(d_[0]), to_z3(o_.f["tail"])) == to_z3(p1.env["stem"])
+                        eqs = z3.simplify(eq)
+                        if any(c.eq(eq) or c.eq(eqs) for c in p1.pc):
+                            lvl = lvl + 1
+                    except Exception:
+                        pass
+            else:
+                lvl = QL
+            for nm, f in history_is(ex, p1, hist, lvl, "returned-history"):
+                ex.oblige(p1, nm, f, None)
+
+
+_install_prev7 = install
+
+
+def install(lib):
+    cs = _install_prev7(lib)
+    for nm in ("follow_lru",):
+        lib.loop_spec("LRUTrie.%s::for#0" % nm, LoopSpec(reader_for_inv, havoc=havoc_reader, locals_=("lru",)))
+        lib.loop_spec("LRUTrie.%s::while#0" % nm, LoopSpec(reader_while_inv, havoc=havoc_reader_node))
+    cs = [c for c in cs if c.qual != "LRUTrie.follow_lru"]
+    return cs + [FollowHistory()]
